@@ -1,5 +1,6 @@
 import CLModel.Model.Primary
 import CLModel.Proofs.IntExpr
+import CLModel.Proofs.Guards
 import Mathlib.Tactic.Ring
 /-!
 # C03 — Predicate proofs are sound and complete over the 32-bit range (arithmetic half)
@@ -150,5 +151,11 @@ theorem pred_on_other_value_rejected {G : Type} (o : GroupOps G) (m : OvfMode) (
 example : I32 2147483647 ∧ I32 (-2147483648) := by unfold I32; omega
 example : getDelta .checked ⟨"a", .GE, -2147483648⟩ 2147483647 = .ok 4294967295 := by decide
 example : getDeltaPrime .wrapping ⟨"a", .LT, -2147483648⟩ = .ok (-2147483649) := by decide
+
+/-- **the link check is where the model has it**: in `_verify_primary_proof` the response
+`eq_proof.m[predicate.attr_name]` is compared with `ne_proof.mj` inside the loop over the
+predicate proofs, for each proof, before `_verify_ne_predicate` (recognised by the translator;
+collecting the responses into a map first, or comparing after the loop, breaks it) -/
+theorem mj_link_from_source : Gen.mjLinkInLoop = true := rfl
 
 end CL.C03
